@@ -302,7 +302,7 @@ func main() {
 	})
 	budget := 4 * time.Minute
 	if run.Thorough() {
-		budget = 25 * time.Minute
+		budget = 12 * time.Minute
 	}
 	sdrv.Main(run, jobs, sdrv.Options{
 		Budget: budget, Bounds: bounds,
